@@ -3,14 +3,15 @@ from .. import common as C
 from . import c02
 
 ID = "C20"
-MODULES = ["Helios.Props.CodePool", "Helios.Props.C20", "Helios.Props.Facts"]
+MODULES = ["Helios.Props.CodePool", "Helios.Props.CodeWire", "Helios.Props.C20", "Helios.Props.Facts"]
 THEOREMS = ["Helios.Pool.takeFresh_spec", "Helios.Pool.get_fresh", "Helios.Pool.get_exclusive", "Helios.Pool.idle_bounded",
             "Helios.Pool.shutdown_closes_all", "Helios.Pool.down_forever", "Helios.Facts.wrappers_capable",
             "Helios.Facts.wrappers_known",
             # Tie C: Get / Put / Close / cleanupBackend of the pool, translated from the source on every run, do to the
             # backend's pool object what the model's get / put / close / cleanup do to its entry
             "Helios.CodeTie.get_refines", "Helios.CodeTie.put_refines", "Helios.CodeTie.put_down", "Helios.CodeTie.put_nil",
-            "Helios.CodeTie.close_refines", "Helios.CodeTie.cleanup_refines", "Helios.CodeTie.translation_clean_pool"]
+            "Helios.CodeTie.close_refines", "Helios.CodeTie.cleanup_refines", "Helios.CodeTie.translation_clean_pool",
+            "Helios.CodeTie.setupWebSocketPool_refines", "Helios.CodeTie.wsEff_accepted", "Helios.CodeTie.translation_clean_wire"]
 
 
 def gen_pool_episode(rng, long=False):
